@@ -108,9 +108,8 @@ Bin(op, t1, x, t2, y) ==
     [] op \in {"div", "mod"} ->
          LET cx == Convert(x, ct)  cy == Convert(y, ct) IN
          IF cy = Z0 THEN Bad                                           \* 6.5.5p5
-         ELSE LET q == ZDivT(cx, cy) IN
-              IF ~InRange(q, rt) THEN Bad                              \* INT_MIN / -1, also for % (6.5.5p6)
-              ELSE Res(TRUE, rt, IF op = "div" THEN q ELSE ZModT(cx, cy))
+         ELSE IF Sg(rt) /\ cx = MinV(rt) /\ cy = ZNeg(Z1) THEN Bad     \* INT_MIN / -1 and INT_MIN % -1 (6.5.5p6)
+         ELSE Res(TRUE, rt, IF op = "div" THEN ZDivT(cx, cy) ELSE ZModT(cx, cy))
     [] op \in {"band", "bxor", "bor"} ->
          Res(TRUE, rt, BitOp(op, rt, Convert(x, ct), Convert(y, ct)))
     [] op \in ShiftOps ->
